@@ -3,6 +3,7 @@ import SlogModel.Model.Parse
 import SlogModel.Model.Frame
 import SlogModel.Model.Route
 import SlogModel.Model.Redact
+import SlogModel.Model.Ser
 import SlogModel.Gen.Facts
 import Driver.Util
 
@@ -37,6 +38,7 @@ structure DState where
                             minLen := Facts.parse_min_len.getD 0 }
   frameCfg : Frame.Cfg := { cap := 0, soft := 0 }
   frame : Frame.St := {}
+  serCfg : Ser.Cfg := { names := [], env := [], envNames := [], hidden := [], rewrites := [] }
   routeParts : List Route.Part := []
   routeN : Nat := 0
   routePipes : List Bytes := []     -- merge keys of the pipelines, in creation order
@@ -176,12 +178,55 @@ def handleRoute (st : DState) : List String → DState × String
     | _, _ => (st, "bad-op")
   | _ => (st, "bad-op")
 
+def splitNonEmpty (s : String) (sep : String) : List String := (s.splitOn sep).filter (· ≠ "")
+
+def parseNatList (s : String) : Option (List Nat) := (splitNonEmpty s ",").mapM (·.toNat?)
+
+def parseRw (t : String) : Option Ser.Rw :=
+  match t.toList with
+  | ['c'] => some .copy
+  | ['u'] => some .unescape
+  | 'i' :: r => (String.ofList r).toNat?.map .inline
+  | _ => none
+
+def parseRewrites (s : String) : Option (List (Nat × List Ser.Rw)) :=
+  (splitNonEmpty s ";").mapM (fun item =>
+    match item.splitOn ":" with
+    | [i, chain] =>
+      match i.toNat?, (splitNonEmpty chain "+").mapM parseRw with
+      | some i, some ch => some (i, ch)
+      | _, _ => none
+    | _ => none)
+
+def dropPrefix2 (s : String) : String := String.ofList (s.toList.drop 2)
+
+def handleSer (st : DState) : List String → DState × String
+  | ["cfg", n, e, en, h, r] =>
+    match (splitNonEmpty (dropPrefix2 n) ",").mapM unhex, parseNatList (dropPrefix2 e),
+          (splitNonEmpty (dropPrefix2 en) ",").mapM unhex, parseNatList (dropPrefix2 h), parseRewrites (dropPrefix2 r) with
+    | some names, some env, some envNames, some hidden, some rw =>
+      ({ st with serCfg := { names := names, env := env, envNames := envNames, hidden := hidden, rewrites := rw } }, "ok")
+    | _, _, _, _, _ => (st, "bad-op")
+  | "rec" :: sec :: nsec :: unesc :: hs =>
+    match sec.toInt?, nsec.toNat?, unhexAll hs with
+    | some sec, some nsec, some fields =>
+      let r : Ser.Rec := { fields := fields, sec := sec, nsec := nsec, unescaped := unesc == "1" }
+      let out := Ser.encodeRecord st.serCfg r
+      (st, s!"{hex out} fits={if out.length + 3 ≤ Ser.serBound st.serCfg r then 1 else 0}")
+    | _, _, _ => (st, "bad-op")
+  | ["unescape", h] =>
+    match unhex h with
+    | some bs => (st, hex (Ser.unescape bs))
+    | none => (st, "bad-op")
+  | _ => (st, "bad-op")
+
 def handle (st : DState) (line : String) : DState × String :=
   match fields line with
   | "time" :: rest => (st, handleTime rest)
   | "parse" :: rest => handleParse st rest
   | "frame" :: rest => handleFrame st rest
   | "route" :: rest => handleRoute st rest
+  | "ser" :: rest => handleSer st rest
   | ["redact", h] =>
     match unhex h with
     | none => (st, "bad-op")
